@@ -190,21 +190,53 @@ def main(run):
                 if len(set(fv)) >= 3:
                     run.nontriv(("c10", kind, n, rep, run.shard[0], repr(alpha)))
     # ---- float / NumPy scalar inputs against the exact result
-    for typ in (float, np.float64, np.float32, np.int64, int):
+    def mk(typ, rnd_):
+        if typ in ("uint8",):
+            return np.uint8(rnd_.randrange(0, 256))
+        if typ == "int8":
+            return np.int8(rnd_.randrange(-128, 128))
+        if typ == "int32":
+            return np.int32(rnd_.randrange(-2 ** 30, 2 ** 30))
+        if typ == "bool_":
+            return np.bool_(rnd_.random() < .5)
+        if typ == "pybool":
+            return rnd_.random() < .5
+        if typ == "0d-float":
+            return np.array(rnd_.uniform(-50, 50))
+        if typ == "0d-int":
+            return np.array(rnd_.randrange(-500, 500))
+        if typ in (np.int64, int):
+            return typ(rnd_.randrange(-10 ** 6, 10 ** 6))
+        return typ(rnd_.uniform(-1, 1) * 10 ** rnd_.choice([-3, 0, 4]))
+    for typ in (float, np.float64, np.float32, np.int64, int, "uint8", "int8", "int32", "bool_", "pybool", "0d-float", "0d-int", "reused-0d-buffer"):
+        tname = typ if isinstance(typ, str) else typ.__name__
         for n in (1, 2, 7, 50, 256):
             for rep in range(reps):
-                if typ in (np.int64, int):
-                    vals = [typ(rnd.randrange(-10 ** 6, 10 ** 6)) for _ in range(n)]
+                if typ == "reused-0d-buffer":        # the caller reuses ONE 0-d array as a buffer: trackers must take the value, not alias it
+                    buf = np.array(0.0)
+                    raw = [rnd.uniform(-50, 50) for _ in range(n)]
+                    vals = None
                 else:
-                    vals = [typ(rnd.uniform(-1, 1) * 10 ** rnd.choice([-3, 0, 4])) for _ in range(n)]
+                    vals = [mk(typ, rnd) for _ in range(n)]
+                    raw = [float(v) for v in vals]
                 alpha = rnd.choice([0.001, 1 / 3, 0.5, 1.0, rnd.random()])
                 w, e = WelfordTracker(), ExponentialSmoothingTracker(alpha)
-                for v in vals:
-                    w.update(v)
-                    wpaths.add(rec.take())
-                    e.update(v)
-                    epaths.add(rec.take())
-                fv = [fr(v) for v in vals]
+                try:
+                    for i in range(n):
+                        if vals is None:
+                            buf[...] = raw[i]
+                            v = buf
+                        else:
+                            v = vals[i]
+                        w.update(v)
+                        wpaths.add(rec.take())
+                        e.update(v)
+                        epaths.add(rec.take())
+                except Exception as ex:
+                    run.ok(kind="float-types")
+                    run.violation("update-raises", f"{tname} n={n}: update raised {type(ex).__name__}: {ex}", {"type": tname, "values": raw[:10]})
+                    continue
+                fv = [Fraction(x) for x in raw]
                 mean = sum(fv) / n
                 var = sum((x - mean) ** 2 for x in fv) / n
                 es = sum(Fraction(alpha) * (1 - Fraction(alpha)) ** (n - 1 - j) * fv[j] for j in range(n))
@@ -212,13 +244,16 @@ def main(run):
                 mx = max(abs(float(x)) for x in fv) or 1.0
                 tol = 16 * (n + 4) * eps * mx
                 run.ok(3, kind="float-types")
-                if not (abs(float(w.mean) - float(mean)) <= tol and w.N == n):
-                    run.violation("welford-mean", f"{typ.__name__} n={n}: mean {w.mean!r} vs exact {float(mean)!r}", {"values": vals, "type": typ.__name__})
+                rp = {"values": raw[:20], "type": tname, "alpha": alpha}
+                if vals is not None and [float(v) for v in vals] != raw:
+                    run.violation("input-modified", f"{tname} n={n}: the caller's input objects were modified by update", rp)
+                if not (abs(float(w.mean) - float(mean)) <= tol and w.N == n and e.N == n):
+                    run.violation("welford-mean", f"{tname} n={n}: mean {w.mean!r} vs exact {float(mean)!r} (N={w.N}/{e.N})", rp)
                 if not (abs(float(w.var) - float(var)) <= 64 * (n + 4) * eps * mx * mx and float(w.var) >= 0):
-                    run.violation("welford-variance", f"{typ.__name__} n={n}: var {w.var!r} vs exact {float(var)!r}", {"values": vals, "type": typ.__name__})
+                    run.violation("welford-variance", f"{tname} n={n}: var {w.var!r} vs exact {float(var)!r}", rp)
                 if not (abs(float(e.get()) - float(es)) <= tol):
-                    run.violation("smoothing-closed-form", f"{typ.__name__} n={n} alpha={alpha}: {e.get()!r} vs exact {float(es)!r}", {"values": vals, "alpha": alpha})
-                run.nontriv(("c10f", typ.__name__, n, rep))
+                    run.violation("smoothing-closed-form", f"{tname} n={n} alpha={alpha}: {e.get()!r} vs exact {float(es)!r}", rp)
+                run.nontriv(("c10f", tname, n, rep))
     rec.close()
     run.notes["welford_update_line_paths"] = sorted(map(list, wpaths))
     run.notes["smoothing_update_line_paths"] = sorted(map(list, epaths))
